@@ -108,3 +108,24 @@ fn f6_change_distance_from_binary_quantized() {
     let reader = Reader::<Euclidean>::open(&rtxn, 0, db).unwrap();
     reader.assert_validity(&rtxn).unwrap();
 }
+
+/// F7: item iterators must return the declared dimension for binary-quantised metrics.
+#[test]
+fn f7_iter_returns_declared_dimension_for_binary_quantized() {
+    let handle = create_database::<BinaryQuantizedEuclidean>();
+    let mut wtxn = handle.env.write_txn().unwrap();
+    let writer = Writer::new(handle.database, 0, 16);
+    let v: Vec<f32> = (0..16).map(|j| if j % 3 == 0 { 1.0 } else { -1.0 }).collect();
+    writer.add_item(&mut wtxn, 7, &v).unwrap();
+    writer.builder(&mut rng()).build(&mut wtxn).unwrap();
+    let got = writer.item_vector(&wtxn, 7).unwrap().unwrap();
+    assert_eq!(got, v);
+    let (id, it) = writer.iter(&wtxn).unwrap().next().unwrap().unwrap();
+    assert_eq!(id, 7);
+    assert_eq!(it, got, "iter yields {} floats, item_vector {}", it.len(), got.len());
+    wtxn.commit().unwrap();
+    let rtxn = handle.env.read_txn().unwrap();
+    let reader = Reader::open(&rtxn, 0, handle.database).unwrap();
+    let (_, it) = reader.iter(&rtxn).unwrap().next().unwrap().unwrap();
+    assert_eq!(it, got);
+}
